@@ -79,7 +79,8 @@ def check_returned(ctx, spec, run, label, datasets, src_model):
           'ops': common.describe_model(spec.content, src_model)}
 
   from vf.run import abortinfo, driver
-  feeds = {}
+  info['model_path'], info['feeds_path'] = abortinfo.save(
+      os.path.join(driver.ROOT, '.work', 'risky'), run.out, {s['key']: datasets[s['key']][0] for s in spec.signatures})
 
   def go():
     for s in spec.signatures:
@@ -99,10 +100,6 @@ def check_returned(ctx, spec, run, label, datasets, src_model):
             ii = np.iinfo(d['dtype'])
             x = np.clip(np.rint(x.astype(np.float64) / float(sc[0])) + int(zp[0]), ii.min, ii.max).astype(d['dtype'])
           feed[arg] = x
-        feeds[key] = feed
-        info['model_path'], info['feeds_path'] = abortinfo.save(
-            os.path.join(driver.ROOT, '.work', 'risky'), run.out, feeds)
-        ctx.emit({'ev': 'call', 'case': ctx.case, 'what': 'interp.invoke', 'info': info})
         r(**feed)
         ctx.count('interp_ok')
       except Exception as e:  # pylint: disable=broad-except
